@@ -500,6 +500,14 @@ func (a *jwtAuthenticator) getKey(
 			if err = json.Unmarshal(entry, &jwk); err == nil {
 				logger.Debug().Msg("Reusing JWK from cache")
 
+				// the cached key might originate from an authenticator with other validation settings
+				if err = a.validateJWK(&jwk); err != nil {
+					return nil, errorchain.
+						NewWithMessagef(heimdall.ErrAuthentication, "JWK for keyID=%s is invalid", keyID).
+						WithErrorContext(a).
+						CausedBy(err)
+				}
+
 				return &jwk, nil
 			}
 		}
